@@ -4,7 +4,7 @@ from collections import defaultdict
 
 from . import facts as F
 
-CAST_KINDS = ("ImplicitCastExpr", "CStyleCastExpr", "ParenExpr")
+CAST_KINDS = ("ImplicitCastExpr", "CStyleCastExpr", "ParenExpr", "ConstantExpr")
 
 
 class Node:
@@ -166,7 +166,7 @@ def _render(n):
         return ""
     k = n.k
     K = n.kids
-    if k in ("ImplicitCastExpr",):
+    if k in ("ImplicitCastExpr", "ConstantExpr"):
         return _render(K[0])
     if k == "ParenExpr":
         return "(" + _render(K[0]) + ")"
